@@ -39,17 +39,24 @@ theorem C11_order_plan_is_intent (sch : Schema) (joined rev : Bool) (args : List
     denotes are a permutation of the filtered (distinct) rows and are sorted w.r.t. the intended
     lexicographic comparator (NULLs first ascending; ties in any order). -/
 theorem C11_order_spec_correct (sch : Schema) (db : Db) (u : USel) (keys : List Key)
-    (ho : u.order ≠ .many [])
+    (ho : ∀ k, u.order ≠ .many k [])
     (hk : intentKeys sch u.clause.usesOth u.rev u.order.args = some keys) :
     ∃ out, evalSelect sch db (Sel.ofU sch u) = some out
       ∧ out.Perm (distinctIf u.dist (source db u.clause)) ∧ Sorted (leKeys keys) out :=
   evalSelect_spec sch db u keys ho hk
 
+/-- a list `[k1, k2]` and a tuple `(k1, k2)` of the same keys are the same order specification:
+    both are translated key by key ('-' prefixes and attribute names inside a tuple included) -/
+theorem C11_order_container_irrelevant (sch : Schema) (k k' : SeqKind) (l : List OrderArg) :
+    mungeAll sch (.many k l) = mungeAll sch (.many k' l)
+    ∧ mungeAll sch (.many k l) = .many (l.map (mungeOrderBy sch)) := by
+  simp [mungeAll, mungeSeq_eq]
+
 /-- the same for a select built by any chain of calls -/
 theorem C11_order_spec_correct_chain (sch : Schema) (db : Db) (clause : Option Expr) (orderBy : Option OrderBy)
     (rev dist : Bool) (ops : List SelOp) (keys : List Key) :
     let u := ops.foldl USel.apply (USel.new sch clause orderBy rev dist)
-    u.order ≠ .many [] → intentKeys sch u.clause.usesOth u.rev u.order.args = some keys →
+    (∀ k, u.order ≠ .many k []) → intentKeys sch u.clause.usesOth u.rev u.order.args = some keys →
     ∃ out, evalSelect sch db (ops.foldl (Sel.apply sch) (Sel.new sch clause orderBy rev dist)) = some out
       ∧ out.Perm (distinctIf u.dist (source db u.clause)) ∧ Sorted (leKeys keys) out := by
   intro u ho hk
@@ -81,7 +88,7 @@ theorem C11_reversed_negates_every_key (sch : Schema) (joined rev : Bool) (args 
 /-- **reversed_is_reverse_order.**  The reversed select returns the same rows, sorted by the converse
     comparator; the reverse of the original answer is such a list. -/
 theorem C11_reversed_is_reverse_order (sch : Schema) (db : Db) (u : USel) (keys : List Key)
-    (ho : u.order ≠ .many [])
+    (ho : ∀ k, u.order ≠ .many k [])
     (hk : intentKeys sch u.clause.usesOth u.rev u.order.args = some keys) :
     ∃ out outR, evalSelect sch db (Sel.ofU sch u) = some out
       ∧ evalSelect sch db (Sel.ofU sch u).rev = some outR
@@ -99,7 +106,7 @@ theorem C11_reversed_is_reverse_order (sch : Schema) (db : Db) (u : USel) (keys 
 
 /-- when the keys leave no ties among the selected rows, `reversed()` is exactly list reversal -/
 theorem C11_reversed_no_ties (sch : Schema) (db : Db) (u : USel) (keys : List Key) (out outR : List Row)
-    (ho : u.order ≠ .many [])
+    (ho : ∀ k, u.order ≠ .many k [])
     (hk : intentKeys sch u.clause.usesOth u.rev u.order.args = some keys)
     (h1 : evalSelect sch db (Sel.ofU sch u) = some out)
     (h2 : evalSelect sch db (Sel.ofU sch u).rev = some outR)
@@ -329,10 +336,11 @@ def exDb : Db :=
 
 def ids (o : Option (List Row)) : Option (List Int) := o.map (·.map (·.id))
 
-def exOrder : OrderBy := .many [.str ['-', 'a'], .str ['b', 'V']]
+def exOrder : OrderBy := .many .tuple [.str ['-', 'a'], .str ['b', 'V']]
 
 example : ids (evalSelect exSch exDb (Sel.new exSch none (some exOrder) false false)) = some [3, 4, 1, 2] := by decide
 example : ids (evalSelect exSch exDb (Sel.new exSch none (some exOrder) false false).rev) = some [2, 1, 3, 4] := by decide
+example : ids (evalSelect exSch exDb (Sel.new exSch none (some (.many .list exOrder.args)) false false)) = some [3, 4, 1, 2] := by decide
 example : intentKeys exSch false false exOrder.args = some [(.col 0, true), (.col 1, false)] := by decide
 example : intentKeys exSch false true exOrder.args = some [(.col 0, false), (.col 1, true)] := by decide
 example : ids (evalSelect exSch exDb (Sel.new exSch none (some (.one (.expr (.desc (.desc (.desc (.field .id))))))) false false))
